@@ -32,6 +32,7 @@ import itertools
 import numpy as np
 
 PROPERTY = 'C16'
+GUARD = ['numqi.gellmann']  # argument-immutability oracle (mc.seams.ImmutabilityGuard)
 LEVEL = 'model_checking'
 RULE = ('mode B (basis alphabets): case = (function family, d, backend, input dtype); inside a case the complete basis alphabet '
         '(all matrix units E_ab and i*E_ab / all unit coefficient vectors e_i and i*e_i / the polarisation set of density matrices '
